@@ -80,6 +80,7 @@ def main(argv=None):
         for j in rj: j['deadline'] = rung_deadline
         with ctx.Pool(min(a.jobs, max(1, len(rj)))) as pool:
             rr = list(pool.imap_unordered(_run_job, rj))
+        if os.environ.get('VERIF_TIMING'): print(f'[timing] rung {rung} wave 1: {len(rj)} jobs, t={time.time() - t0:.0f}s', file=sys.stderr)
         # second wave: big jobs were only enumerated down to a decision depth; explore every cut prefix as its own job
         sub = []
         for r in rr:
@@ -90,6 +91,7 @@ def main(argv=None):
             rnd.shuffle(sub)
             with ctx.Pool(min(a.jobs, len(sub))) as pool:
                 rr += list(pool.imap_unordered(_run_job, sub, chunksize=max(1, len(sub) // (a.jobs * 8))))
+        if os.environ.get('VERIF_TIMING'): print(f'[timing] rung {rung} wave 2: {len(sub)} jobs, t={time.time() - t0:.0f}s', file=sys.stderr)
         results.extend(rr)
         if any(r.violations for r in rr): completed.append(rung); break      # a counterexample was found: no need to go deeper
         if all(not r.inconclusive for r in rr): completed.append(rung)
